@@ -299,6 +299,7 @@ bool Run::make_channel(int idx) {
     if (na < 1) na = 1;
     for (int i = 0; i < (int)cfg.servers.size() && i < na; i++) active.push_back(i);
     max_active = (int)active.size();
+    active_hist.push_back({W.seq, active});
   }
   if (cfg.server_source == 0 && !cfg.servers.empty()) {
     W.api_seq++;
@@ -348,7 +349,10 @@ void Run::set_servers_variant(int variant) {
   bool set_changed = sa != sn;   // membership change (a pure reorder keeps the same set of servers)
   W.api_seq++;
   std::string csv = servers_csv(cfg.servers, nw);
+  // queries of a server being removed are re-sent from inside the call, when the new list is already in force
+  active_hist.push_back({W.seq, nw});
   int rc = ares_set_servers_ports_csv(c.ch, csv.c_str());
+  if (rc != ARES_SUCCESS) active_hist.push_back({W.seq, active});
   note(changed ? "set_servers_changed" : "set_servers_same");
   W.mix_shape(0x5E70 + (changed ? 1 : 0));
   if (rc == ARES_SUCCESS) {
